@@ -708,7 +708,8 @@ class SAMIParser(HTMLParser):
             self.sami += f"</{closing_tag}>"
 
     def handle_entityref(self, name):
-        if name in ['gt', 'lt']:
+        if name in ['gt', 'lt', 'amp']:
+            # kept escaped: the intermediate markup is parsed once more
             self.sami += f'&{name};'
         else:
             try:
@@ -720,9 +721,11 @@ class SAMIParser(HTMLParser):
 
     def handle_charref(self, name):
         if name[0] == 'x':
-            self.sami += chr(int(name[1:], 16))
+            char = chr(int(name[1:], 16))
         else:
-            self.sami += chr(int(name))
+            char = chr(int(name))
+        # markup characters stay escaped: the intermediate markup is parsed once more
+        self.sami += escape(char)
 
     # override the parser's handling of data
     def handle_data(self, data):
